@@ -66,6 +66,11 @@ func main() {
 			os.Exit(2)
 		}
 		os.Exit(replay(rf.Property, rf.Key))
+	case "killtest":
+		drive.SilenceStdout()
+		h, _ := strconv.Atoi(os.Args[3])
+		op, _ := strconv.Atoi(os.Args[4])
+		props.KillTest(os.Args[2], uint32(h), op, os.Args[5])
 	case "racepass":
 		drive.SilenceStdout()
 		n := 30
